@@ -1,4 +1,160 @@
-(* MYSQL layer: decidable classes of the known findings of C04, over (baseline schema, action list). *)
+(* MYSQL layer: decidable classes of the known findings of C04, as booleans over (baseline schema, action
+   list).  Each class is a trigger evaluated along the evolving schema exactly as build_plan_queries evolves
+   it.  The check accepts a failing input only if the class holds AND the observed symptom (engine rule /
+   differing catalog component) is one the class explains (props/known_C04.proposed.json, "explains").
+   The same booleans are the negated hypotheses of the simulation lemmas in Proofs/.  No proofs here. *)
 From VV.MYSQL Require Export Engine Assumptions.
 
-Definition known_classifiers : list (schema -> list action -> bool) := [].
+Definition step (s : schema) (a : action) : schema :=
+  match apply_action s a with Ok s' => s' | Err _ => s end.
+
+(* some action of the plan satisfies [p] in the schema it is generated from *)
+Fixpoint along (p : schema -> action -> bool) (s : schema) (acts : list action) : bool :=
+  match acts with
+  | [] => false
+  | a :: r => (p s a || along p (step s a) r)%bool
+  end.
+
+Definition constraints_of (s : schema) (t : string) : list table_constraint :=
+  match find_table t s with Some td => t_constraints td | None => [] end.
+
+(* ---- D19: MODIFY COLUMN never restates AUTO_INCREMENT ---- *)
+Definition is_auto_col (s : schema) (t c : string) : bool := mem_str c (auto_increment_columns (constraints_of s t)).
+Definition p_autoinc_modify (s : schema) (a : action) : bool :=
+  match a with
+  | ModifyColumnType t c _ _ | ModifyColumnNullable t c _ _ | ModifyColumnDefault t c _ | ModifyColumnComment t c _ =>
+      is_auto_col s t c
+  | _ => false
+  end.
+Definition known_C04_autoinc_lost := along p_autoinc_modify.
+
+(* ---- D11: explicit CHECK constraints are left out of CREATE TABLE ---- *)
+Definition is_check (k : table_constraint) : bool := match k with CCheck _ _ => true | _ => false end.
+Definition p_create_with_check (s : schema) (a : action) : bool :=
+  match a with CreateTable _ _ ks => existsb is_check ks | _ => false end.
+Definition known_C04_check_missing := along p_create_with_check.
+
+(* ---- D2: a table (or a referenced column) is dropped before the foreign key that points at it ---- *)
+Definition referenced_by_other (s : schema) (t : string) : bool :=
+  existsb (fun td => (negb (String.eqb (t_name td) t)
+                      && existsb (fun k => match k with CForeignKey _ _ rt _ _ _ => String.eqb rt t | _ => false end)
+                                 (t_constraints td))%bool) s.
+Definition column_referenced (s : schema) (t c : string) : bool :=
+  existsb (fun td => existsb (fun k => match k with
+                                       | CForeignKey _ _ rt rcols _ _ => (String.eqb rt t && mem_str c rcols)%bool
+                                       | _ => false
+                                       end) (t_constraints td)) s.
+Definition p_drop_referenced (s : schema) (a : action) : bool :=
+  match a with
+  | DeleteTable t => referenced_by_other s t
+  | DeleteColumn t c => column_referenced s t c
+  | _ => false
+  end.
+Definition known_C04_drop_before_unreference := along p_drop_referenced.
+
+(* ---- a column that carries a foreign key is dropped while the key is still there (MySQL 1828) ---- *)
+Definition p_drop_fk_column (s : schema) (a : action) : bool :=
+  match a with
+  | DeleteColumn t c =>
+      existsb (fun k => match k with CForeignKey _ cols _ _ _ _ => mem_str c cols | _ => false end) (constraints_of s t)
+  | _ => false
+  end.
+Definition known_C04_drop_fk_column := along p_drop_fk_column.
+
+(* ---- D18: one member of a multi-column key is dropped ---- *)
+Definition p_composite_member_drop (s : schema) (a : action) : bool :=
+  match a with
+  | DeleteColumn t c =>
+      existsb (fun k => match k with
+                        | CPrimaryKey _ cols | CUnique _ cols | CIndex _ cols =>
+                            (mem_str c cols && Nat.leb 2 (List.length cols))%bool
+                        | _ => false
+                        end) (constraints_of s t)
+  | _ => false
+  end.
+Definition known_C04_composite_member_drop := along p_composite_member_drop.
+
+(* ---- the key of an AUTO_INCREMENT column is removed (the attribute itself is never removed) ---- *)
+Definition p_autoinc_key_removed (s : schema) (a : action) : bool :=
+  match a with RemoveConstraint _ (CPrimaryKey true _) => true | _ => false end.
+Definition known_C04_autoinc_key_removed := along p_autoinc_key_removed.
+
+(* ---- D13 (MySQL side): derived names and references after RenameTable / RenameColumn ---- *)
+Definition has_derived_name (k : table_constraint) : bool :=
+  match k with CUnique _ _ | CIndex _ _ | CForeignKey _ _ _ _ _ _ => true | _ => false end.
+Definition p_rename_drift (s : schema) (a : action) : bool :=
+  match a with
+  | RenameTable from _ => (existsb has_derived_name (constraints_of s from) || referenced_by_other s from
+                           || existsb (fun k => match k with CForeignKey _ _ rt _ _ _ => String.eqb rt from | _ => false end)
+                                      (constraints_of s from))%bool
+  | RenameColumn t c _ =>
+      (existsb (fun k => match k with
+                         | CUnique None cols | CIndex None cols | CForeignKey None cols _ _ _ _ => mem_str c cols
+                         | _ => false
+                         end) (constraints_of s t)
+       || existsb (fun k => match k with CForeignKey _ _ _ rcols _ _ => mem_str c rcols | _ => false end) (constraints_of s t)
+       || column_referenced s t c)%bool
+  | _ => false
+  end.
+Definition known_C04_rename_drift := along p_rename_drift.
+
+(* ---- DROP FOREIGN KEY leaves the implicitly created index behind ---- *)
+Definition key_cols_of (ks : list table_constraint) : list (list string) :=
+  flat_map (fun k => match k with CPrimaryKey _ cols | CUnique _ cols | CIndex _ cols => [cols] | _ => [] end) ks.
+Definition p_fk_drop_leaves_index (s : schema) (a : action) : bool :=
+  match a with
+  | RemoveConstraint t (CForeignKey _ cols _ _ _ _) => negb (existsb (is_prefix cols) (key_cols_of (constraints_of s t)))
+  | _ => false
+  end.
+Definition known_C04_fk_drop_leaves_index := along p_fk_drop_leaves_index.
+
+(* ---- D16: two constraints of the resulting schema share a derived name ---- *)
+Fixpoint has_dup (l : list string) : bool :=
+  match l with [] => false | x :: r => (mem_str x r || has_dup r)%bool end.
+Definition key_names (t : table_def) : list string :=
+  flat_map (fun k => match k with
+                     | CUnique n cols => [build_unique_constraint_name (t_name t) cols n]
+                     | CIndex n cols => [build_index_name (t_name t) cols n]
+                     | _ => []
+                     end) (t_constraints t).
+Definition fk_names (t : table_def) : list string := map fk_name (create_fks (t_name t) (t_constraints t)).
+Definition derived_collision (s : schema) : bool :=
+  (existsb (fun t => has_dup (key_names t)) s || has_dup (flat_map fk_names s))%bool.
+Definition known_C04_derived_name_collision (s : schema) (acts : list action) : bool :=
+  along (fun s a => derived_collision (step s a)) s acts.
+
+(* ---- explicit CHECK names are per table in the model, per schema in MySQL ---- *)
+Definition check_names (t : table_def) : list string :=
+  flat_map (fun k => match k with CCheck n _ => [n] | _ => [] end) (t_constraints t).
+Definition known_C04_check_name_scope (s : schema) (acts : list action) : bool :=
+  along (fun s a => has_dup (flat_map check_names (step s a))) s acts.
+
+(* ---- a key that a foreign key relies on (no implicit index was ever needed) is removed ---- *)
+Definition p_key_needed_by_fk (s : schema) (a : action) : bool :=
+  match a with
+  | RemoveConstraint t (CPrimaryKey _ cols) | RemoveConstraint t (CUnique _ cols) | RemoveConstraint t (CIndex _ cols) =>
+      (existsb (fun k => match k with CForeignKey _ fc _ _ _ _ => is_prefix fc cols | _ => false end) (constraints_of s t)
+       || existsb (fun td => existsb (fun k => match k with
+                                               | CForeignKey _ _ rt rc _ _ => (String.eqb rt t && is_prefix rc cols)%bool
+                                               | _ => false
+                                               end) (t_constraints td)) s)%bool
+  | _ => false
+  end.
+Definition known_C04_key_needed_by_fk := along p_key_needed_by_fk.
+
+(* ---- every column of a table is replaced: all DeleteColumn actions precede the AddColumn actions ---- *)
+Definition p_last_column_drop (s : schema) (a : action) : bool :=
+  match a with
+  | DeleteColumn t _ => match find_table t s with Some td => Nat.leb (List.length (t_columns td)) 1 | None => false end
+  | _ => false
+  end.
+Definition known_C04_last_column_drop := along p_last_column_drop.
+
+(* ---- an auto-increment primary key is added to an existing table: ADD PRIMARY KEY has no AUTO_INCREMENT ---- *)
+Definition p_autoinc_pk_added (s : schema) (a : action) : bool :=
+  match a with AddConstraint _ (CPrimaryKey true _) => true | _ => false end.
+Definition known_C04_autoinc_not_added := along p_autoinc_pk_added.
+
+(* order = order of the "classifier" fields looked up by checks/mysqlrun.py *)
+Definition known_classifiers : list (schema -> list action -> bool) :=
+  [known_C04_autoinc_lost; known_C04_check_missing; known_C04_drop_before_unreference; known_C04_drop_fk_column; known_C04_composite_member_drop; known_C04_autoinc_key_removed; known_C04_rename_drift; known_C04_fk_drop_leaves_index; known_C04_derived_name_collision; known_C04_check_name_scope; known_C04_key_needed_by_fk; known_C04_last_column_drop; known_C04_autoinc_not_added].
